@@ -45,6 +45,7 @@ func cmdRecord(args []string) int {
 	n := fs.Int("n", 20, "number of trials")
 	repo := fs.String("repo", "/repo", "repository (for the sample models)")
 	fs.StringVar(&opsFilter, "ops", "", "family ops: comma-separated operator names (default: all)")
+	fs.StringVar(&shapeExtents, "extents", shapeExtents, "family shapes: comma-separated extents of the enumerated shape pairs")
 	fs.StringVar(&concMode, "mode", "broad", "family conc: broad (all models, few Runs per goroutine) | hot (generated models only, many short Runs on 8 goroutines)")
 	_ = fs.Parse(args[1:])
 	f, err := os.Create(*out)
@@ -391,6 +392,19 @@ func recordBatch(rec *recorder, rng *rand.Rand, trials int, repo string) int {
 				e["rows"] = rr
 				rec.emit(e)
 				return true
+			}
+			if len(sm.inNames) >= 2 {
+				// first a Run whose inputs disagree about the batch size (n samples for one input, n+1 for the others): it is
+				// refused somewhere inside the graph, and whatever that leaves behind must not reach the Runs that follow
+				mixed := sm.stack(samples)
+				longer := sm.stack(append(append([]map[string][]float32{}, samples...), samples[0]))
+				for _, in := range sm.inNames[1:] {
+					mixed[in] = longer[in]
+				}
+				guard(func() Observation {
+					_, _ = sm.model.Run(mixed)
+					return Observation{Kind: "value"}
+				})
 			}
 			if !emitRun("Batch", map[string]interface{}{"perm": identity(n)}, samples) {
 				continue
